@@ -1,54 +1,57 @@
 import Taskpool.Model.Queue
+/-! Line-protocol driver of M2 (`qdriver`): one op line in, one observation line out; `reset` starts a new history.
+Every op is `Q.step` of the model the C20 theorems are about. -/
 open Taskpool.QueueM
 
-structure W where
-  q : Q
-  ready : List Ref
-
 def showPhase : CPhase → String
-  | .notStarted => "N" | .waiting => "W" | .inBlock i => s!"B{i}" | .done .ok => "Dok" | .done .exc => "Dexc" | .done .cancelled => "Dcan"
+  | .notStarted => "N" | .waiting => "W" | .inBlock i => s!"B{i}"
+  | .done .ok _ => "Dok" | .done .exc _ => "Dexc" | .done .cancelled _ => "Dcan"
 
 def showEv : Ev → String
   | .got c i => s!"G{c}:{i}" | .exited c => s!"X{c}" | .taskDone u => s!"T{u}" | .valueError => "VE"
   | .sawCancel c => s!"C{c}" | .joined j => s!"J{j}"
 
-def obs (w : W) (r : String) : String :=
-  let q := w.q
-  let cs := ",".intercalate (q.consumers.map fun c => showPhase c.phase)
-  let js := ",".intercalate (q.joiners.map fun j => match j.phase with | .done => "D" | _ => "P")
-  s!"r={r} | n={q.items.length} q={w.ready.length} | ev={",".intercalate (q.log.map showEv)} | c={cs} | j={js}"
+/-- observation after an op; `seen` = length of the log before it -/
+def obs (q : Q) (seen : Nat) (r : String) : String :=
+  let k := q.k
+  let cs := ",".intercalate (k.cores.map fun c => showPhase c.phase)
+  let js := ",".intercalate (k.joiners.map fun j => match j.phase with | .done => "D" | _ => "P")
+  let ms := ",".intercalate (k.cores.map fun c => toString c.marks)
+  s!"r={r} | n={k.items.length} u={k.unfinished} q={q.ready.length} | ev={",".intercalate ((q.log.drop seen).map showEv)} | c={cs} | j={js} | g={k.puts},{k.exits},{k.tdCalls},{k.valueErrors} m={ms}"
 
-def drain (w : W) : W := { q := { w.q with emit := [], log := [] }, ready := w.ready ++ w.q.emit }
-
-def stepW (w : W) (toks : List String) : W × String :=
+def parseInput (toks : List String) : Option Input :=
   match toks with
-  | ["put", x] => ({ w with q := w.q.put (x.toNat?.getD 0) }, "ok")
-  | ["spawn"] => ({ w with q := w.q.spawn }, "ok")
-  | ["join"] => ({ w with q := w.q.join }, "ok")
-  | ["cancel", c] => ({ w with q := w.q.cancelConsumer (c.toNat?.getD 0) }, "ok")
-  | ["gate", c, how] =>
-    let r := w.q.gate (c.toNat?.getD 0) (how == "exc")
-    ({ w with q := r.1 }, if r.2 then "ok" else "noop")
-  | "run" :: rest =>
-    let k := match rest with | [s] => s.toNat?.getD 0 | _ => 0
-    match w.ready[k]? with
-    | none => (w, "noop")
-    | some r => ({ ready := w.ready.eraseIdx k, q := w.q.runRef r }, "ok")
-  | _ => (w, "bad-op")
+  | ["put", x] => x.toNat?.map .put
+  | ["spawn"] => some .spawn
+  | ["join"] => some .join
+  | ["cancel", c] => c.toNat?.map .cancel
+  | ["gate", c, "ok"] => c.toNat?.map (.gate · false)
+  | ["gate", c, "exc"] => c.toNat?.map (.gate · true)
+  | ["run"] => some (.run 0)
+  | ["run", i] => i.toNat?.map .run
+  | _ => none
 
-partial def loop (h out : IO.FS.Stream) (w : W) : IO Unit := do
+/-- `ok`/`noop` as the harness reports it for the real objects -/
+def verdict (q : Q) : Input → String
+  | .gate c _ => if q.canGate c then "ok" else "noop"
+  | .run i => if i < q.ready.length then "ok" else "noop"
+  | _ => "ok"
+
+partial def loop (h out : IO.FS.Stream) (q : Q) : IO Unit := do
   let line ← h.getLine
   if line.isEmpty then return ()
   let toks := (line.trimAscii.toString.splitOn " ").filter (· ≠ "")
   if toks == ["reset"] then
-    out.putStrLn "reset"; loop h out { q := Q.init, ready := [] }
+    out.putStrLn "reset"; loop h out Q.init
   else
-    let (w1, r) := stepW w toks
-    let s := obs { w1 with ready := w1.ready ++ w1.q.emit } r
-    out.putStrLn s
-    loop h out (drain w1)
+    match parseInput toks with
+    | none => out.putStrLn "bad-op"; loop h out q
+    | some i =>
+      let q1 := q.step i
+      out.putStrLn (obs q1 q.log.length (verdict q i))
+      loop h out q1
 
 def main : IO Unit := do
   let out ← IO.getStdout
-  loop (← IO.getStdin) out { q := Q.init, ready := [] }
+  loop (← IO.getStdin) out Q.init
   out.flush
